@@ -19,6 +19,7 @@ import (
 	"github.com/mycoria/mycoria/frame"
 	"github.com/mycoria/mycoria/m"
 	"github.com/mycoria/mycoria/peering"
+	"github.com/mycoria/mycoria/state"
 
 	"mycoverif/core"
 	"mycoverif/ident"
@@ -56,6 +57,20 @@ func run(e *core.Env) {
 	L[1] = S[1].Node.Peering.GetLink(S[0].Node.IP)
 	if L[0] == nil || L[1] == nil {
 		e.Infra("handshake did not complete (client err %v)", att.Result.Err)
+	}
+	// In a quarter of the runs both directions start a few frames before the 32-bit wrap of the
+	// link's sequence numbers, so that the key roll-over of the link layer happens inside the
+	// run (no link lives for 2^32 frames in a simulation). Reordering is left out of these runs:
+	// a frame of the old epoch that arrives after the first frame of the new one is refused by
+	// design, and so is everything of the old epoch behind it.
+	nearWrap := tp.Chance(1, 4)
+	if nearWrap {
+		for i := 0; i < 2; i++ {
+			if enc := peering.VerifLinkEncryption(L[i]); enc != nil {
+				(&state.EncryptionSessionTestHelper{EncryptionSession: enc}).ReglSetOut(0xFFFFFFFF - uint32(tp.Intn(160)))
+			}
+		}
+		e.Probe("link_starts_near_sequence_wrap")
 	}
 	// A second, unrelated connection provides foreign records for injection.
 	var foreign [][]byte
@@ -128,6 +143,7 @@ func run(e *core.Env) {
 		}
 		if len(fresh) == 1 {
 			fresh[0].Tag = token
+			e.Logf("send %.8s from=%d size=%d type=%d -> record seq=%d", token, from, size, mt, fresh[0].Seq)
 		}
 	}
 	// Frames whose record reached the reader byte-identical and as one unit.
@@ -135,6 +151,7 @@ func run(e *core.Env) {
 	cn.OnDeliver = func(r *simnet.Record) {
 		if r.Conn == att.Pair && r.Tag != "" {
 			intactDelivered[r.Tag] = true
+			e.Logf("deliver intact %.8s dir=%d seq=%d", r.Tag, r.Dir, r.Seq)
 		}
 	}
 	// In a third of the runs the adversary keeps the record framing intact (whole records are
@@ -246,6 +263,15 @@ func run(e *core.Env) {
 				continue
 			}
 			r := recs[tp.Intn(len(recs))]
+			if nearWrap {
+				// no implicit reordering either: the adversary works on the oldest record of a direction
+				for _, q := range recs {
+					if q.Dir == r.Dir {
+						r = q
+						break
+					}
+				}
+			}
 			if r.EOF {
 				continue
 			}
@@ -255,6 +281,10 @@ func run(e *core.Env) {
 				dst = att.Pair.A
 			}
 			kind := tp.Intn(13)
+			e.Logf("adversary kind=%d on record dir=%d seq=%d tag=%.8s len=%d", kind, r.Dir, r.Seq, r.Tag, len(r.Data))
+			if nearWrap && kind == 4 {
+				kind = 3
+			}
 			if framed && kind == 2 {
 				kind = 11 // no truncation in framing-preserving runs
 			}
